@@ -13,7 +13,12 @@
 (*   mode "create" detect compression (gzip magic), detect format (BCF     *)
 (*                 magic, raw or behind the first BGZF block), then decode *)
 (*                 the whole stream - genotype::reader::Builder            *)
-(*   mode "write"  a sequence of write_all(segment) calls                  *)
+(*   mode "write"  a sequence of write_all(segment) calls; via "lib" straight *)
+(*                 into a scheduled writer, via "stdout" / "path" inside   *)
+(*                 the real process, whose sink (a regular file under a    *)
+(*                 size limit) fails at a chosen byte offset and may sit   *)
+(*                 behind a buffer layer of file.buf bytes that has to be  *)
+(*                 flushed before the process may report success           *)
 (* The outcome of a behaviour must be a function of the bytes and of the   *)
 (* failure offset only - never of the schedule - and a failure anywhere    *)
 (* must surface as an error.                                               *)
@@ -21,11 +26,13 @@
 EXTENDS Integers, Sequences, TLC, Json
 
 CONSTANTS
-    Files,               \* set of files: [name, mode, len, segs, item, count, gz, bcf, need, valid], lengths of REAL files
+    Files,               \* set of files: [name, mode, len, segs, item, count, gz, bcf, need, valid, via, buf], lengths of REAL files
     Schedules(_),        \* file -> set of <<first chunk, later-chunk policy (0 = the rest), failure offset (-1 = none)>>
     AB_ShortReadIsEof,   \* sabotage: read_exact done with a single read
     AB_DetectFromFirstChunk, \* as built: detection looks only at what the first read returned
-    AB_WriteNotAll       \* sabotage: write() instead of write_all(): the unaccepted tail is dropped
+    AB_WriteNotAll,      \* sabotage: write() instead of write_all(): the unaccepted tail is dropped
+    AB_NoFinalFlush      \* sabotage (seeded change C18d): a buffer layer in front of the sink that is only flushed on drop,
+                         \* where errors are discarded
 
 VARIABLES
     file, first, later, failAt,      \* the scenario
@@ -162,7 +169,7 @@ SegEnd(k) == LET f[j \in 0..Len(file.segs)] == IF j = 0 THEN 0 ELSE f[j - 1] + f
 CurSeg == CHOOSE k \in 1..Len(file.segs) : SegEnd(k - 1) <= consumed /\ consumed < SegEnd(k)
 
 WriteStep ==
-    /\ Running /\ file.mode = "write" /\ consumed < Total
+    /\ Running /\ file.mode = "write" /\ file.buf = 0 /\ consumed < Total
     /\ IF FailsNow THEN result' = [st |-> "err", why |-> "io"] /\ UNCHANGED <<delivered, consumed>>
        ELSE LET rest == SegEnd(CurSeg) - consumed
                 cap == IF nreads = 0 THEN first ELSE IF later = 0 THEN rest ELSE later
@@ -174,8 +181,31 @@ WriteStep ==
     /\ nreads' = nreads + 1
     /\ UNCHANGED <<file, first, later, failAt, buffered, pc, items, detected>>
 
+(* the same write_all calls into a buffer layer: a segment is accepted whole, the layer drains into the sink when it holds *)
+(* more than file.buf bytes; the sink takes bytes up to its failure offset and fails after that                            *)
+Drain(upto) ==
+    IF failAt >= 0 /\ failAt < upto
+    THEN delivered' = (IF failAt > delivered THEN failAt ELSE delivered) /\ result' = [st |-> "err", why |-> "io"]
+    ELSE delivered' = upto /\ result' = result
+
+WriteBuffered ==
+    /\ Running /\ file.mode = "write" /\ file.buf > 0 /\ consumed < Total
+    /\ LET end == SegEnd(CurSeg)
+       IN  /\ consumed' = end
+           /\ IF end - delivered > file.buf THEN Drain(end) ELSE UNCHANGED <<delivered, result>>
+    /\ nreads' = nreads + 1
+    /\ UNCHANGED <<file, first, later, failAt, buffered, pc, items, detected>>
+
+(* the final flush: whatever the layer still holds has to reach the sink before success may be reported *)
+Flush ==
+    /\ Running /\ file.mode = "write" /\ file.buf > 0 /\ consumed >= Total /\ delivered < Total /\ ~AB_NoFinalFlush
+    /\ Drain(Total)
+    /\ nreads' = nreads + 1
+    /\ UNCHANGED <<file, first, later, failAt, buffered, consumed, pc, items, detected>>
+
 WriteDone ==
     /\ Running /\ file.mode = "write" /\ consumed >= Total
+    /\ file.buf = 0 \/ delivered = Total \/ AB_NoFinalFlush
     /\ result' = [st |-> "ok", items |-> delivered]
     /\ UNCHANGED <<file, first, later, failAt, delivered, buffered, consumed, pc, items, detected, nreads>>
 
@@ -188,7 +218,7 @@ Init ==
 
 Next == Fill \/ NpyStart \/ NpyTake \/ NpyProbed \/ NpyEof
         \/ CreateStart \/ CreateDetect \/ CreateDecode \/ CreateDrain \/ CreateEmpty
-        \/ WriteStep \/ WriteDone
+        \/ WriteStep \/ WriteBuffered \/ Flush \/ WriteDone
 
 Spec == Init /\ [][Next]_vars
 
